@@ -216,6 +216,18 @@ func engineType(t types.Type) string {
 			return "decimal"
 		}
 	}
+	// named types defined on top of time.Time / decimal.Decimal (e.g. `type DateFlag time.Time`)
+	if st, ok := n.Underlying().(*types.Struct); ok && st.NumFields() >= 2 {
+		f0 := st.Field(0)
+		if f0.Pkg() != nil {
+			switch {
+			case f0.Pkg().Path() == "time" && f0.Name() == "wall" && st.NumFields() == 3:
+				return "time"
+			case f0.Pkg().Path() == "github.com/shopspring/decimal" && f0.Name() == "value" && st.NumFields() == 2:
+				return "decimal"
+			}
+		}
+	}
 	return ""
 }
 
